@@ -319,7 +319,8 @@ def one(rec, R, nd, det, abn, orders, text, doc, max_leaves, exhaustive):
         rec.feat("mode-switched-on-after-compile")
     try:
         q = nd.compile(text)
-        base = locs(det.compile(text).find(doc))
+        det_q = det.compile(text)
+        base = locs(det_q.find(doc))
     except Exception:  # noqa: BLE001
         return
     if late:
@@ -365,6 +366,12 @@ def one(rec, R, nd, det, abn, orders, text, doc, max_leaves, exhaustive):
         rec.sample({"query": text, "document": D.short(doc), "leaves": leaves, "distinct_orderings": len(results), "permitted": len(permitted) if permitted is not None else None,
                     "enumeration_complete": complete}, limit=6)
     wit = {"query": text, "document": jsonable(doc), "leaves": leaves}
+    # the query compiled on the DETERMINISTIC environment before all this and held since must still give document order
+    o_det = mon.observe(lambda: locs(det_q.find(doc)))
+    rec.monitor("M-held-deterministic-query")
+    if o_det[0] != "ok" or o_det[1] != base:
+        rec.violation("held-deterministic-query-changed", dict(wit, before=jsonable(base), after=jsonable(o_det[1]) if o_det[0] == "ok" else mon.describe_outcome(o_det)))
+        return
     if err is not None:
         rec.violation("raises-" + err[1], wit)
         return
